@@ -97,6 +97,10 @@ def to_sexp(e):
         return f"(slc {to_sexp(e[1])} {e[2]} {e[3]})"
     if k == "rsz":
         return f"(rsz {to_sexp(e[1])} {e[2]})"
+    if k == "tlit":
+        # a width-less literal arm (Full / Null / python int / bit string) whose type is only fixed by the target:
+        # its documented value is the literal AT THE TARGET's type and width (Full = all ones of the target)
+        return f"(lit {ty_str(e[2])} {e[3]})"
     if k == "conv":
         return f"(conv {to_sexp(e[1])} {ty_str(e[2])})"
     if k == "rszz":
@@ -189,6 +193,12 @@ def to_py(e):
         return f"{to_py(e[1])}.bitvector"
     if k == "rsz":
         return f"{to_py(e[1])}.resize({e[2]})"
+    if k == "tlit":
+        if e[1] in ("Full", "Null"):
+            return e[1]
+        if e[1] == "str":
+            return f'"{e[3]:0{e[2][1]}b}"'
+        return f"({e[3]})"
     if k == "conv":
         return to_py(e[1])  # implicit: the conversion happens because the target (output port) has another type
     if k == "rszz":
@@ -229,7 +239,7 @@ def arg_type(arg):
 
 def children(e):
     k = e[0]
-    if k in ("p", "lit", "i", "sh"):
+    if k in ("p", "lit", "i", "sh", "tlit"):
         return []
     if k in ("ar", "bo", "cmp"):
         return [e[2], e[3]]
@@ -244,7 +254,7 @@ def children(e):
     return [x for x in e[1:] if isinstance(x, tuple) and x and isinstance(x[0], str) and x[0] in KINDS_]
 
 
-KINDS_ = {"p", "lit", "i", "sh", "ar", "bo", "inv", "neg", "abs", "cmp", "chain", "shl", "shr", "cat", "idx", "slc", "idxrt",
+KINDS_ = {"p", "lit", "i", "sh", "tlit", "ar", "bo", "inv", "neg", "abs", "cmp", "chain", "shl", "shr", "cat", "idx", "slc", "idxrt",
           "sgn", "uns", "bv", "rsz", "rszz", "conv", "truth", "not", "and", "or", "any", "all", "ite", "sel"}
 
 
@@ -263,6 +273,8 @@ def shape(e):
         return "lit-" + e[1][0]
     if k == "i":
         return "int" if e[1] >= 0 else "negint"
+    if k == "tlit":
+        return f"arm-{e[1]}-{e[2][0]}"
     if k == "conv":
         return f"conv-{e[2][0]}(" + shape(e[1]) + ")"
     head = k + ("-" + e[1] if k in ("ar", "bo", "cmp") else "") + (f"-{e[1]}-{e[2]}" if k == "chain" else "")
@@ -273,6 +285,8 @@ def ops_in(e, acc):
     k = e[0]
     if k in ("ar", "bo", "cmp"):
         acc.append(f"{k}-{e[1]}")
+    elif k == "tlit":
+        acc.append("arm-literal-" + e[1])
     elif k == "sh":
         acc.append("shared-object")
         ops_in(e[2], acc)
@@ -1244,25 +1258,114 @@ def conv_targets(t, maxw):
 
 
 def has_conv(e):
-    return e[0] == "conv" or any(has_conv(c) for c in children(e))
+    return e[0] in ("conv", "tlit") or any(has_conv(c) for c in children(e))
+
+
+def full_value(t):
+    return -1 if t[0] == "s" else (1 << t[1]) - 1
+
+
+def literal_arm(rng, tgt, form=None):
+    """an arm whose type is fixed only by the target: Full / Null / python int / bit string"""
+    forms = ["Full", "Null", "int"] if tgt[0] in ("u", "s") else ["Full", "Null", "str"]
+    form = form or rng.choice(forms)
+    if form == "Full":
+        return ("tlit", "Full", tgt, full_value(tgt))
+    if form == "Null":
+        return ("tlit", "Null", tgt, 0)
+    w = tgt[1]
+    if tgt[0] == "s":
+        v = rng.choice([-(1 << (w - 1)), -1, (1 << (w - 1)) - 1, rng.randint(-(1 << (w - 1)), (1 << (w - 1)) - 1)])
+    else:
+        v = rng.choice([(1 << w) - 1, 1 << (w - 1), rng.randrange(1 << w)])
+    return ("tlit", form, tgt, v)
+
+
+def typed_arm(rng, g, tgt, d=1):
+    """a typed arm that the target accepts (narrower or equal width, convertible kind)"""
+    w = tgt[1]
+    if tgt[0] == "u":
+        src = ("u", rng.randint(1, w))
+    elif tgt[0] == "s":
+        src = ("u", rng.randint(1, w - 1)) if (w > 1 and rng.random() < 0.5) else ("s", rng.randint(1, w))
+    else:
+        src = (rng.choice(["bv", "u", "s"]), w)
+    e = g.gen(src, d)
+    return e if src == tgt else ("conv", e, tgt)
+
+
+def merged_root(rng, g, tgt, depth=1):
+    """an if-expression / select_with typed by its TARGET: arms are typed values of smaller width / other kind and
+    width-less literals (Full, Null, int, bit string) in every position"""
+    def arm(allow_nested):
+        c = rng.random()
+        if c < 0.4:
+            return literal_arm(rng, tgt)
+        if allow_nested and c < 0.5:
+            return ("ite", g.gen(g.truthy_type(), 1), arm(False), arm(False))
+        return typed_arm(rng, g, tgt)
+    if rng.random() < 0.5:
+        return ("ite", g.gen(g.truthy_type(), 1), arm(depth > 0), arm(depth > 0))
+    cands = g.ports_of(lambda x: (is_vec(x) and x[1] <= 2) or x == BIT)
+    if not cands:
+        return ("ite", g.gen(g.truthy_type(), 1), arm(False), arm(False))
+    i = rng.choice(cands)
+    targ = g.ports[i]
+    keys = [0, 1] if targ == BIT else (list(range(-(1 << (targ[1] - 1)), 1 << (targ[1] - 1))) if targ[0] == "s" else list(range(1 << targ[1])))
+    rng.shuffle(keys)
+    full = rng.random() < 0.3
+    n = len(keys) if full else rng.randint(1, max(1, len(keys) - 1))
+    branches = [(k, arm(False)) for k in keys[:n]]
+    default = None if full else arm(False)
+    return ("sel", g.port(i), branches, default)
 
 
 def root_convert(rng, g, e, t, maxw):
     """let the result (or the arms of a root if-expression / select_with) drive a target of another type"""
-    if e[0] == "ite" and t[0] in ("u", "s") and rng.random() < 0.6:
-        # arms of different types, typed by the target: Unsigned[n] / Signed[m] arms into a wider Signed, ...
-        tgt = (rng.choice(["s", "s", "u"]), min(maxw, t[1] + rng.randint(1, 2)))
-        if tgt[1] > t[1]:
-            def arm():
-                kd = rng.choice(["u", "s"]) if tgt[0] == "s" else "u"
-                w = rng.randint(1, tgt[1] - 1) if kd == "u" and tgt[0] == "s" else rng.randint(1, tgt[1])
-                return ("conv", g.gen((kd, w), 1), tgt)
-            return ("ite", e[1], arm(), arm()), tgt
+    if rng.random() < 0.45:
+        # arms typed only by the target
+        tgt = (t[0], min(maxw, t[1] + rng.randint(0, 2))) if t[0] != "bv" else t
+        return merged_root(rng, g, tgt), tgt
     c = conv_targets(t, maxw)
     if not c:
         return e, t
     tgt = rng.choice(c)
     return ("conv", e, tgt), tgt
+
+
+def literal_arm_matrix(ctx):
+    """if-expression / select_with arms that are Full / Null / int / bit-string literals in EVERY position (first,
+    middle, last, default; also nested and all-literal) mixed with typed arms narrower than the target; the documented
+    value of a literal arm is the literal at the TARGET's width (Full = all ones of the target); all valuations, both
+    contexts"""
+    out = []
+    for wa in ([2] if ctx.quick else [1, 2, 3]):
+        ports = [("u", wa), ("s", wa), ("bv", wa), ("u", 2), BIT]
+        u, s_, v, k2, x = [("p", i, False, t) for i, t in enumerate(ports)]
+        ex = []
+        for tgt in [("u", wa + 2), ("s", wa + 2), ("bv", wa)]:
+            typed = {"u": [("conv", u, tgt), ("conv", ("ar", "add", u, ("i", 1)), tgt)],
+                     "s": [("conv", u, tgt), ("conv", s_, tgt)],
+                     "bv": [v, ("conv", u, tgt)]}[tgt[0]]
+            forms = ["Full", "Null", "int"] if tgt[0] != "bv" else ["Full", "Null", "str"]
+            lits = [literal_arm(ctx.rng, tgt, f) for f in forms]
+            for ta in typed:
+                for l in lits:
+                    ex += [("ite", x, ta, l), ("ite", x, l, ta)]
+            ex += [("ite", x, lits[0], lits[1]), ("ite", x, lits[2], lits[0]),
+                   ("ite", x, typed[0], ("ite", ("p", 0, False, ports[0]), lits[0], typed[1])),
+                   ("ite", x, ("ite", ("p", 0, False, ports[0]), typed[1], lits[0]), typed[0])]
+            for l in lits:
+                ex += [("sel", k2, [(0, l), (1, typed[0]), (2, typed[1])], typed[0]),
+                       ("sel", k2, [(0, typed[0]), (1, l), (2, typed[1])], typed[0]),
+                       ("sel", k2, [(0, typed[0]), (1, typed[1]), (2, l)], typed[1]),
+                       ("sel", k2, [(0, typed[0]), (1, typed[1])], l)]
+            ex += [("sel", k2, [(0, typed[0]), (1, lits[0]), (2, typed[1]), (3, lits[1])], None),
+                   ("sel", x, [(0, typed[0]), (1, lits[0])], None)]
+        for clocked in (False, True):
+            for i in range(0, len(ex), 40):
+                out.append(DesignCase(ports, {}, ex[i:i + 40], clocked, True))
+    return out
 
 
 def conversion_matrix(ctx):
@@ -1471,6 +1574,7 @@ def run(ctx: Ctx):
     designs += snapshot_designs(ctx)
     # implicit conversion at the root of an expression / of if-expression and select_with arms
     designs += conversion_matrix(ctx)
+    designs += literal_arm_matrix(ctx)
     # operand qualifier kinds (Port / Signal / Variable / Temporary / constant) per operand position
     designs += qualifier_matrix(ctx)
 
@@ -1705,7 +1809,7 @@ def report_value(ctx, d, e, bad):
     objs = "; ".join(f"f{j} = {to_py(d.shadows['shared'][j][0])}" for j in used)
     sig = f"value:{shape(small)}" + (f"|after:{shape(context[0])}" if context else "")
     return ctx.report(sig,
-               f"`{to_py(small)}`" + (f" driving a {ty_py(small[2])} target" if small[0] == "conv" else "") + (f" (with {objs})" if objs else "") + (f", emitted after `{to_py(context[0])}`" if context else "") +
+               f"`{to_py(small)}`" + (f" driving a {ty_py(small[2])} target" if small[0] == "conv" else (f" assigned to a target of type {res.get('model_type')}" if has_conv(small) else "")) + (f" (with {objs})" if objs else "") + (f", emitted after `{to_py(context[0])}`" if context else "") +
                f" ({'clocked' if d.clocked else 'concurrent'}) on operand valuation {f['valuation']} "
                f"(ports {[ty_str(p) for p in d.ports]}): documented value {f['expected']}, emitted logic gives {f['observed']}",
                {"kind": "value", "ports": d.ports, "shadows": sj(d.shadows), "expr": small, "context": context, "clocked": d.clocked,
